@@ -40,6 +40,8 @@ static Par gen(vh::Rng& r) {
    const double ptach = r.chance(0.5) ? 0.0 : 0.12;   // steer about half of the points into tachyonic soft masses
    for (int i = 0; i < 3; ++i) {
       p.Yu[i] = r.LU(1e-5, 1.2); p.Yd[i] = r.LU(1e-5, 1.5); p.Ye[i] = r.LU(1e-6, 1.0);
+      // a real Yukawa coupling may be negative (the resummed y_b = sqrt2 m_b/(v_d (1 + Delta_b)) is, for large tan(beta) and mu M3 < 0): the mass is its modulus
+      if (r.chance(0.25)) p.Yu[i] = -p.Yu[i]; if (r.chance(0.25)) p.Yd[i] = -p.Yd[i]; if (r.chance(0.25)) p.Ye[i] = -p.Ye[i];
       const double A = r.chance(0.2) ? 3e4 : 3000;   // large trilinears push the lighter sfermion tachyonic
       p.Tu[i] = r.U(-1, 1) * A * p.Yu[i]; p.Td[i] = r.U(-1, 1) * A * p.Yd[i]; p.Te[i] = r.U(-1, 1) * A * p.Ye[i];
       auto sq = [&]() { double x = r.LU(lo, hi); return (r.chance(ptach) ? -1 : 1) * x * x; };
@@ -136,8 +138,9 @@ static void one(vh::Rng& r) {
    clause("VWm", "mass", std::fabs(m.get_MVWm() - std::sqrt(MW2s)) / std::sqrt(MW2s), 1e-12, c);
    const double mf[9] = {m.get_MFd(), m.get_MFs(), m.get_MFb(), m.get_MFu(), m.get_MFc(), m.get_MFt(), m.get_MFe(), m.get_MFm(), m.get_MFtau()};
    double ferr = 0;
-   for (int i = 0; i < 3; ++i) ferr = std::max({ferr, std::fabs(mf[i] - p.Yd[i] * p.vd / s2) / (p.Yd[i] * p.vd / s2), std::fabs(mf[3 + i] - p.Yu[i] * p.vu / s2) / (p.Yu[i] * p.vu / s2), std::fabs(mf[6 + i] - p.Ye[i] * p.vd / s2) / (p.Ye[i] * p.vd / s2)});
-   clause("fermions", "mass=y v/sqrt2", ferr, 1e-12, c);
+   for (int i = 0; i < 3; ++i) { const double rd = std::fabs(p.Yd[i]) * p.vd / s2, ru = std::fabs(p.Yu[i]) * p.vu / s2, re = std::fabs(p.Ye[i]) * p.vd / s2;
+      ferr = std::max({ferr, std::fabs(mf[i] - rd) / rd, std::fabs(mf[3 + i] - ru) / ru, std::fabs(mf[6 + i] - re) / re}); }
+   clause("fermions", "mass=|y| v/sqrt2", ferr, 1e-12, c);
    // Higgs sectors from the harness's own tree-level EWSB: mA^2 = Bmu/(sb cb)
    const double sb = p.vu / std::sqrt(v2), cb = p.vd / std::sqrt(v2), mA2 = p.Bmu / (sb * cb), mu2s = p.mu * p.mu;
    M2 P; P << sb * sb, sb * cb, sb * cb, cb * cb; M2 G; G << cb * cb, -sb * cb, -sb * cb, sb * sb;
